@@ -11,15 +11,19 @@ COMMON_NOTE = ("Trusted base: SDK baseapp atomicity, bank keeper contract, sdk.C
 
 claimed = {
  "C06": dict(
-   text="Proof (per-function, unbounded in amounts and number of debts): every stablestake keeper function that writes Params.TotalValue, a Debt row or moves the module's deposit-denom cash (Borrow, Repay, UpdateInterestStacked, GetInterest) preserves TotalValue - cash - Σdebts exactly on every committing path; Σ over all borrowers is a ghost aggregate maintained by the table-write semantics.",
+   text="Proof (per-function, unbounded in amounts and number of debts): every stablestake function that writes Params.TotalValue, a Debt row or moves the module's deposit-denom cash (Bond, Unbond, Borrow, Repay, UpdateInterestStacked, GetInterest) preserves TotalValue - cash - Σdebts exactly on every committing path; Σ over all borrowers is a ghost aggregate maintained by the table-write semantics.",
    note=COMMON_NOTE + "Induction over histories is closed only over the listed functions (see evidence.functions_under_contract); callers in other modules reach the footprint only through them.",
    ref="§8 C06"),
+ "C07": dict(
+   text="Proof of the issuance/redemption rule and the lending cap on the real handlers: Bond mints exactly RoundInt(amount / liveRate) shares to the depositor (liveRate = TotalValue/share supply read at the call, 1 for an empty vault) and takes exactly the deposit; Unbond burns the shares and pays exactly RoundInt(shares * liveRate), lowering TotalValue by the same figure; GetRedemptionRate is value per share; Borrow refuses any loan with 10*(outstanding+amount) > 9*TotalValue (exact integer statement). The quantitative round-trip/dilution bounds (one share's worth) are NOT proved here: they need a numerical-analysis argument over nested 18-digit roundings that the solvers do not decide (tried in design, §1); what is proved is that both directions use the same live rate with the stated rounding, which is what a change of rate source, rounding direction or ordering breaks.",
+   note=COMMON_NOTE + "Fixed-point products/quotients of two symbolic operands are uninterpreted (sign/zero/unit facts only) in these obligations; postconditions are stated over the same terms. Hook effects come from call-graph frame inference.",
+   ref="§8 C07"),
  "C12": dict(
    text="Proof, with the per-account ledger collections bounded to 2 entries x 2 lock-ups in the type-level obligations (labelled bounded in the evidence) and unbounded at keeper level: AddCommittedTokens/DeductFromCommitted/GetCommittedAmountForDenom against the ledger spec functions (exact committed delta, lock-up recorded, lock respected unless liquidation, no overdraw); CommitLiquidTokens/UncommitTokens keep Params.TotalCommitted - Σ committed, the account delta, and module custody - Σ committed - Σ claimed exactly, for every denom except Eden/EdenB (whose hooks enter the SDK). One genuine defect is recorded as a known finding (UncommitTokens adds to TotalCommitted).",
    note=COMMON_NOTE + "CommitmentChanged hook frame is checked against the estaking implementation; other commitment hooks are read as arbitrary state change. Eden/EdenB paths are not claimed.",
    ref="§8 C12"),
  "C14": dict(
-   text="Proof: VestedSoFar's result equals the linear spec function Total*min(elapsed,N)/N for all inputs (strongest postcondition), never panics for N>0, is within [0,Total] and equals Total once the schedule has elapsed.",
+   text="Proof (vesting lists bounded to 2 entries in the keeper-level obligations, labelled bounded): VestedSoFar equals the linear spec function for all inputs and never panics; schedule lemmas (monotone, within [0,Total], complete) on the spec function; ClaimVesting releases exactly what newly vested, conserves released+outstanding, mints only the native token, never panics on well-formed entries; CancelVest returns exactly the cancelled amount as claimable Eden and lowers the outstanding total by it without touching bank state; VestNow pays amount/factor; Vest adds exactly the vested-in amount. Two genuine defects were found by failing obligations (division by zero for zero-length schedules; claim panics after partial cancel), replayed on the real keeper and repaired by fix: commits.",
    note=COMMON_NOTE,
    ref="§8 C14"),
 }
